@@ -19,6 +19,16 @@ def run_actions(model, t, acts, kw=None):
         if k == 'setkw':
             # the value depends on an extra keyword argument handed down by solve_t / solve / solve_period (**kwargs forwarding)
             model.__dict__['_V%d' % a[1]][t] = np.float64(unhex(a[2])) + np.float64((kw or {}).get(a[3], 0.0))
+        elif k == 'setlistkeep':
+            # model.V_i = list(model.V_i): a whole-series list assignment of the values the variable already has (e.g. a pre-hook that
+            # loads stored starting guesses): no value changes, but the backing array is rebound
+            setattr(model, 'V%d' % a[1], [float(x) for x in model.__dict__['_V%d' % a[1]]])
+        elif k == 'setlist':
+            # same effect as 'set', but written as a WHOLE-SERIES assignment of a plain list (model.V_i = [...]): VectorContainer.__setattr__
+            # then REBINDS the variable's backing array instead of writing into it
+            series = [float(x) for x in model.__dict__['_V%d' % a[1]]]
+            series[t] = unhex(a[2])
+            setattr(model, 'V%d' % a[1], series)
         elif k == 'set':
             model.__dict__['_V%d' % a[1]][t] = unhex(a[2])
         elif k == 'warnset':
